@@ -123,6 +123,7 @@ type World struct {
 	preempts   int64
 	multiReady int64
 	pcCache    map[uintptr]string
+	seamPC     map[uintptr]bool
 	timers     []*time.Timer
 	// CondNewest: buggify — Signal wakes the newest waiter.
 	CondNewest bool
@@ -147,6 +148,7 @@ func NewWorld(tape *Tape, horizon time.Duration) *World {
 		Probes:     map[string]int{},
 		Faults:     map[string]int{},
 		pcCache:    map[uintptr]string{},
+		seamPC:     map[uintptr]bool{},
 		logHash:    1469598103934665603,
 	}
 	return w
@@ -193,11 +195,11 @@ func (t *Task) park(st tstate) {
 	if w.dead.Load() {
 		runtime.Goexit()
 	}
-	var pcs [1]uintptr
-	runtime.Callers(3, pcs[:])
+	var pcs [6]uintptr
+	n := runtime.Callers(3, pcs[:])
 	w.mu.Lock()
 	t.state = st
-	t.parkPC = pcs[0]
+	t.parkPC = w.pickPC(pcs[:n])
 	t.everParked = true
 	if st != sRunnable {
 		t.blockedAt = w.step
@@ -441,6 +443,25 @@ func (w *World) Now() time.Duration { return time.Since(w.start) }
 
 func (w *World) Dead() bool { return w.dead.Load() }
 
+// pickPC returns the first pc that is not inside the seam packages.
+func (w *World) pickPC(pcs []uintptr) uintptr {
+	for _, pc := range pcs {
+		seam, ok := w.seamPC[pc]
+		if !ok {
+			fr, _ := runtime.CallersFrames([]uintptr{pc}).Next()
+			seam = strings.Contains(fr.File, "/verifsim/") || strings.HasPrefix(fr.Function, "runtime.")
+			w.seamPC[pc] = seam
+		}
+		if !seam {
+			return pc
+		}
+	}
+	if len(pcs) > 0 {
+		return pcs[0]
+	}
+	return 0
+}
+
 func (w *World) siteOf(pc uintptr) string {
 	if pc == 0 {
 		return "?"
@@ -481,6 +502,15 @@ func (w *World) logStep(t *Task) {
 }
 
 func (w *World) LogHash() uint64 { return w.logHash }
+
+// Note adds a harness trace line to the detailed log (no effect on the hash).
+func (w *World) Note(s string) {
+	if w.KeepLog {
+		w.mu.Lock()
+		w.LogLines = append(w.LogLines, "# "+s)
+		w.mu.Unlock()
+	}
+}
 
 // Run executes main as the root task "m" under the baton scheduler. It must
 // be called from the root goroutine of a synctest bubble.
@@ -774,7 +804,13 @@ func MutexLock(ms *MutexState, mu *sync.Mutex) {
 	}
 	t.park(sRunnable) // yield before acquiring
 	var pcs [1]uintptr
-	runtime.Callers(3, pcs[:])
+	{
+		var raw [6]uintptr
+		n := runtime.Callers(3, raw[:])
+		w.mu.Lock()
+		pcs[0] = w.pickPC(raw[:n])
+		w.mu.Unlock()
+	}
 	for {
 		if try() {
 			w.mu.Lock()
@@ -805,9 +841,11 @@ func MutexTryLocked(ms *MutexState) {
 		return
 	}
 	var pcs [1]uintptr
-	runtime.Callers(3, pcs[:])
+	var raw [6]uintptr
+	n := runtime.Callers(3, raw[:])
 	w := t.W
 	w.mu.Lock()
+	pcs[0] = w.pickPC(raw[:n])
 	ms.Owner = t
 	ms.OwnerPC = pcs[0]
 	ms.Since = w.step
@@ -839,7 +877,9 @@ func MutexUnlock(ms *MutexState, mu *sync.Mutex) {
 	o := ms.Owner
 	if o == nil {
 		var pcs [1]uintptr
-		runtime.Callers(3, pcs[:])
+		var raw [6]uintptr
+		n := runtime.Callers(3, raw[:])
+		pcs[0] = w.pickPC(raw[:n])
 		w.failLocked("LOCK/unlock-of-unlocked:"+w.siteOf(pcs[0]), "sync: unlock of unlocked mutex at "+w.siteOf(pcs[0]))
 		w.mu.Unlock()
 		if t != nil {
